@@ -17,6 +17,7 @@ fn dotted_input(r: &mut Rng) -> Vec<u8> {
         let len = match r.below(12) {
             0 => 0,
             1 => r.range(62, 65),
+            2 if r.chance(1, 4) => *r.pick(&[254usize, 255, 256, 257, 300, 1000]),
             _ => r.range(1, 6),
         };
         for _ in 0..len {
@@ -119,8 +120,11 @@ pub fn run(r: &mut Rng, n: usize, out: &mut Out) {
             1 => {
                 let s = dotted_input(r);
                 let st = std::str::from_utf8(&s).unwrap();
-                let res = DomainName::from_dotted_string(st);
-                out.case(&["name.fromDotted", &c::hex(&s)], &c::opt_name(&res));
+                let text = match std::panic::catch_unwind(|| DomainName::from_dotted_string(st)) {
+                    Ok(res) => c::opt_name(&res),
+                    Err(_) => "panic".to_string(),
+                };
+                out.case(&["name.fromDotted", &c::hex(&s)], &text);
             }
             2 => {
                 let origin = gen::name(r, 4);
@@ -129,8 +133,11 @@ pub fn run(r: &mut Rng, n: usize, out: &mut Out) {
                     s.pop();
                 }
                 let st = std::str::from_utf8(&s).unwrap();
-                let res = DomainName::from_relative_dotted_string(&origin, st);
-                out.case(&["name.fromRelative", &c::name(&origin), &c::hex(&s)], &c::opt_name(&res));
+                let text = match std::panic::catch_unwind(|| DomainName::from_relative_dotted_string(&origin, st)) {
+                    Ok(res) => c::opt_name(&res),
+                    Err(_) => "panic".to_string(),
+                };
+                out.case(&["name.fromRelative", &c::name(&origin), &c::hex(&s)], &text);
             }
             3 => {
                 let nm = gen::name(r, 5);
